@@ -216,7 +216,10 @@ def normalise_input(case):
     for f in case["wf"].get("input_fields", []):
         if f["name"] not in inp and f.get("default"):
             d = f["default"]
-            inp[f["name"]] = int(d) if f["type"] == "int" else (d == "true") if f["type"] == "bool" else d
+            try:
+                inp[f["name"]] = int(d) if f["type"] == "int" else (d == "true") if f["type"] == "bool" else d
+            except ValueError:
+                inp[f["name"]] = d  # a default that is not a number: such a workflow is refused by Prepare (the run never starts)
     return inp
 
 
